@@ -322,6 +322,33 @@ theorem forRet_fromStrHoles' (s : Name) (l : List (Int × Name)) :
   simp only [decide_eq_comm s] at this
   exact this
 
+/-- `position(p).map(f)` is the loop that returns at the first hit -/
+theorem optMapM_positionFrom {α β} (p : α → Bool) (f : Int → Res β) (l : List α) (k : Nat) :
+    optMapM (positionFrom p k l) f =
+      forRet (enumFrom k l) (fun x => if p x.2 then (f x.1).bind (fun e => .ok (some (some e))) else .ok none) (fun _ => .ok none) := by
+  induction l generalizing k with
+  | nil => rfl
+  | cons x xs ih =>
+    simp only [positionFrom, enumFrom, forRet]
+    by_cases hp : p x = true
+    · simp only [hp, if_true, optMapM]
+      cases f (k : Int) <;> rfl
+    · simp only [hp, if_false]
+      exact ih (k + 1)
+
+/-- `find_map(|x| if p x { Some(g x) } else { None })` is the loop that returns at the first hit -/
+theorem findSome_forRet {α β} (p : α → Bool) (g : α → β) (l : List α) :
+    (Res.ok (List.findSome? (fun x => if p x then some (g x) else none) l) : Res (Option β)) =
+      forRet l (fun x => if p x then .ok (some (some (g x))) else .ok none) (fun _ => .ok none) := by
+  induction l with
+  | nil => rfl
+  | cons x xs ih =>
+    simp only [List.findSome?, forRet]
+    by_cases hp : p x = true
+    · simp [hp]
+    · simp only [hp, if_false]
+      exact ih
+
 theorem fromStrFn_eq (h : D.WF) (hm : md.fromStrFn ≠ .auto) (s : Name) :
     T.fromStrFn D tg md s = ET.fromStr D md.fromStrFn s := by
   unfold T.fromStrFn ET.fromStr
@@ -331,14 +358,21 @@ theorem fromStrFn_eq (h : D.WF) (hm : md.fromStrFn ≠ .auto) (s : Name) :
   · cases hg : D.gapless
     · have := forRet_fromStrHoles s (List.zip (tableEnum D) (tableName D))
       have this' := forRet_fromStrHoles' s (List.zip (tableEnum D) (tableName D))
+      have this'' := (findSome_forRet (fun x : Int × Name => decide (x.2 = s)) (fun x => x.1)
+        (List.zip (tableEnum D) (tableName D))).trans this'
       first
         | simpa [T.fromStrFn_table_holes, fromStrTableHoles] using this
         | simpa [T.fromStrFn_table_holes, fromStrTableHoles] using this'
+        | simpa [T.fromStrFn_table_holes, fromStrTableHoles] using this''
     · have := forRet_fromStrGapless D h s (tableName D) 0
       have this' := forRet_fromStrGapless' D h s (tableName D) 0
+      have this'' := (optMapM_positionFrom (fun n : Name => decide (n = s))
+        (fun i => transmute D (wrappingAdd D.repr (Rust.cast D.repr i) (Rust.cast D.repr (minC D)))) (tableName D) 0).trans
+        (by simpa using this')
       first
         | simpa [T.fromStrFn_table_gapless, fromStrTableGapless, enumerate] using this
         | simpa [T.fromStrFn_table_gapless, fromStrTableGapless, enumerate] using this'
+        | simpa [T.fromStrFn_table_gapless, fromStrTableGapless, position] using this''
 
 theorem fromStrTrait_eq (h : D.WF) (hm : md.fromStrTrait ≠ .auto) (s : Name) :
     T.fromStrTrait D tg md s = ET.fromStr D md.fromStrTrait s := by
@@ -349,14 +383,21 @@ theorem fromStrTrait_eq (h : D.WF) (hm : md.fromStrTrait ≠ .auto) (s : Name) :
   · cases hg : D.gapless
     · have := forRet_fromStrHoles s (List.zip (tableEnum D) (tableName D))
       have this' := forRet_fromStrHoles' s (List.zip (tableEnum D) (tableName D))
+      have this'' := (findSome_forRet (fun x : Int × Name => decide (x.2 = s)) (fun x => x.1)
+        (List.zip (tableEnum D) (tableName D))).trans this'
       first
         | simpa [T.fromStrTrait_table_holes, fromStrTableHoles] using this
         | simpa [T.fromStrTrait_table_holes, fromStrTableHoles] using this'
+        | simpa [T.fromStrTrait_table_holes, fromStrTableHoles] using this''
     · have := forRet_fromStrGapless D h s (tableName D) 0
       have this' := forRet_fromStrGapless' D h s (tableName D) 0
+      have this'' := (optMapM_positionFrom (fun n : Name => decide (n = s))
+        (fun i => transmute D (wrappingAdd D.repr (Rust.cast D.repr i) (Rust.cast D.repr (minC D)))) (tableName D) 0).trans
+        (by simpa using this')
       first
         | simpa [T.fromStrTrait_table_gapless, fromStrTableGapless, enumerate] using this
         | simpa [T.fromStrTrait_table_gapless, fromStrTableGapless, enumerate] using this'
+        | simpa [T.fromStrTrait_table_gapless, fromStrTableGapless, position] using this''
 
 
 /-! ### iter(), names() -/
